@@ -75,6 +75,19 @@ IsPowerLaw(e) ==
       [] e.k = "pow" -> IsPowerLaw(e.a)
       [] OTHER -> FALSE
 
+\* degree of homogeneity of e in the symbols of the set S (sums: the degree of the first summand; Homogeneous in
+\* Mca.tla checks the consequence on every point, so a non-homogeneous sum cannot pass unnoticed)
+RECURSIVE HDeg(_, _)
+HDeg(e, S) ==
+    CASE e.k = "num" -> 0
+      [] e.k = "sym" -> IF e.name \in S THEN 1 ELSE 0
+      [] e.k \in {"add", "sub"} -> HDeg(e.a, S)
+      [] e.k = "mul" -> HDeg(e.a, S) + HDeg(e.b, S)
+      [] e.k = "div" -> HDeg(e.a, S) - HDeg(e.b, S)
+      [] e.k = "pow" -> e.e * HDeg(e.a, S)
+\* c^k for an integer k (c # 0)
+RPowZ(c, k) == IF k >= 0 THEN RPow(c, k) ELSE RPow(RInv(c), 0 - k)
+
 (***************************************************************************)
 (* Elasticities at a point env (variables and parameters |-> rationals)    *)
 (***************************************************************************)
